@@ -58,9 +58,74 @@ Example C10_example :
   (module_of w3 8, references w3 8, symbols_named w3 2 9) = (Some 3, [10], [12]).
 Proof. vm_compute. repeat split. Qed.
 
+(* ROUTE INDEPENDENCE.  Two histories -- ANY two: constructor arguments or attribute assignment, a subtree moved whole or rebuilt piece by
+   piece, rename-then-move or move-then-rename, with or without detours -- that arrive at the same structure (the same nodes with the
+   same attributes, the same members in every collection) answer both lookups alike.  The indexes are lists in insertion order, so the
+   two worlds are in general NOT equal; what a caller can observe of them (each qualifying symbol exactly once) is. *)
+Definition same_structure (w1 w2 : world) : Prop :=
+  (forall n, nodes w1 n = nodes w2 n) /\ (forall p x, In x (kids w1 p) <-> In x (kids w2 p)).
+
+Lemma same_getn : forall w1 w2, (forall n, nodes w1 n = nodes w2 n) -> forall n, getn w1 n = getn w2 n.
+Proof. intros w1 w2 H n. unfold getn. rewrite H. reflexivity. Qed.
+
+Lemma same_module_of : forall w1 w2, (forall n, nodes w1 n = nodes w2 n) -> forall n, module_of w1 n = module_of w2 n.
+Proof.
+  intros w1 w2 H n. pose proof (same_getn w1 w2 H) as G.
+  assert (P : forall x, par w1 x = par w2 x) by (intro x; unfold par; rewrite G; reflexivity).
+  unfold module_of, kindof. rewrite G. destruct (nk (getn w2 n)); try reflexivity; try apply P.
+  - rewrite P. destruct (par w2 n) as [s|]; [cbn; apply P|reflexivity].
+  - rewrite P. destruct (par w2 n) as [b|]; [cbn|reflexivity]. rewrite P. destruct (par w2 b) as [s|]; [cbn; apply P|reflexivity].
+  - rewrite P. destruct (par w2 n) as [b|]; [cbn|reflexivity]. rewrite P. destruct (par w2 b) as [s|]; [cbn; apply P|reflexivity].
+Qed.
+
+Theorem C10_route_independent : forall w1 k1 w2 k2, reachable_k w1 k1 -> reachable_k w2 k2 -> same_structure w1 w2 ->
+  (forall m nm, has w1 m = true -> kindof w1 m = KMod ->
+     NoDup (symbols_named w1 m nm) /\ NoDup (symbols_named w2 m nm) /\
+     forall y, In y (symbols_named w1 m nm) <-> In y (symbols_named w2 m nm)) /\
+  (forall b, has w1 b = true ->
+     NoDup (references w1 b) /\ NoDup (references w2 b) /\
+     forall y, In y (references w1 b) <-> In y (references w2 b)).
+Proof.
+  intros w1 k1 w2 k2 R1 R2 [HN HK]. pose proof (same_getn w1 w2 HN) as G.
+  assert (Hhas : forall n, has w1 n = has w2 n) by (intro n; unfold has; rewrite HN; reflexivity).
+  assert (Hkind : forall n, kindof w1 n = kindof w2 n) by (intro n; unfold kindof; rewrite G; reflexivity).
+  split.
+  - intros m nm Hm Km.
+    destruct (C10_symbols_named_exact w1 k1 m nm R1 Hm Km) as [D1 E1].
+    assert (Hm2 : has w2 m = true) by (rewrite <- Hhas; exact Hm).
+    assert (Km2 : kindof w2 m = KMod) by (rewrite <- Hkind; exact Km).
+    destruct (C10_symbols_named_exact w2 k2 m nm R2 Hm2 Km2) as [D2 E2].
+    split; [exact D1|]. split; [exact D2|].
+    intro y. rewrite E1, E2, HK, Hkind, G. reflexivity.
+  - intros b Hb.
+    destruct (C10_references_exact w1 k1 b R1 Hb) as [D1 E1].
+    assert (Hb2 : has w2 b = true) by (rewrite <- Hhas; exact Hb).
+    destruct (C10_references_exact w2 k2 b R2 Hb2) as [D2 E2].
+    split; [exact D1|]. split; [exact D2|].
+    intro y. rewrite E1, E2. split; intros [m [Hm [Hy [Ky Ry]]]]; exists m.
+    + rewrite <- (same_module_of w1 w2 HN), <- HK, <- Hkind, <- G. auto.
+    + rewrite (same_module_of w1 w2 HN), HK, Hkind, G. auto.
+Qed.
+
+(* the two orders of "rename" and "move" (and a detour through a third module) on the example world: different routes, one structure *)
+Example C10_route_independent_example :
+  let ops0 := [ONew 1 KIR 101 None 0 0 0 PNone; ONew 2 KMod 102 None 0 0 0 PNone; ONew 3 KMod 103 None 0 0 0 PNone; ONew 5 KMod 105 None 0 0 0 PNone;
+               OModAppend 1 2; OModAppend 1 3; OModAppend 1 5;
+               ONew 10 KSym 110 None 0 0 7 PNone; ONew 11 KSym 111 None 0 0 7 PNone; OSet 2 [KSym] SUpdate [[10; 11]]] in
+  let routeA := [OAttrName 10 9; OSetParent 10 (Some 3); OSetParent 11 (Some 3); OAttrName 11 9] in
+  let routeB := [OSetParent 11 (Some 5); OSetParent 11 (Some 3); OAttrName 11 9; OSetParent 10 (Some 3); OAttrName 10 9] in
+  let wa := fst (run_guarded w0 [] (ops0 ++ routeA)) in
+  let wb := fst (run_guarded w0 [] (ops0 ++ routeB)) in
+  all_guarded_ok w0 [] (ops0 ++ routeA) = true /\ all_guarded_ok w0 [] (ops0 ++ routeB) = true /\
+  (symbols_named wa 3 9, symbols_named wb 3 9) = ([10; 11], [11; 10]) /\
+  map (nodes wa) [1; 2; 3; 5; 10; 11] = map (nodes wb) [1; 2; 3; 5; 10; 11].
+Proof. vm_compute. repeat split. Qed.
+
 Print Assumptions C10_symbols_named_exact.
 Print Assumptions C10_references_exact.
 Print Assumptions C10_references_detached.
 Print Assumptions C10_index_invariant.
 Print Assumptions C10_with_lookups_interleaved.
 Print Assumptions C10_example.
+Print Assumptions C10_route_independent.
+Print Assumptions C10_route_independent_example.
